@@ -6,6 +6,7 @@ package runner
 import (
 	"bytes"
 	"context"
+	"encoding/binary"
 	"encoding/hex"
 	"encoding/json"
 	"errors"
@@ -872,6 +873,15 @@ func (w *World) Exec(line string) (res Result) {
 			return bad
 		}
 		b := s.Get(*r.Link)
+		if toks[3] == "droplink" || toks[3] == "addlink" || toks[3] == "dropvalue" {
+			// structural damage of a binary-format node: the slice counts no longer fit each other
+			nb, fine := damageBinary(b, toks[3], atoi(toks[4]))
+			if !fine {
+				return bad
+			}
+			s.Put(*r.Link, nb)
+			return ok(fmt.Sprintf("n:%d", len(b)))
+		}
 		off := atoi(toks[3])
 		var nb []byte
 		if off > len(b) {
@@ -1047,3 +1057,65 @@ func ParseHeader(line string) (string, map[string]string) {
 }
 
 var _ = bytes.Compare
+
+// damageBinary re-cuts a node in the binary format (three length-prefixed slices: keys, values, links):
+// droplink k removes the last k links (at least one stays), addlink k appends k empty links, dropvalue k removes
+// the last k values.  ok is false when the bytes are not a well-formed binary node or too small for the cut.
+func damageBinary(b []byte, mode string, k int) ([]byte, bool) {
+	type sec struct {
+		start, bodyStart, end int
+		count                 int
+		elems                 []int // start offset of each element
+	}
+	var secs []sec
+	pos := 0
+	for i := 0; i < 3; i++ {
+		n, l := binary.Uvarint(b[pos:])
+		if l <= 0 || n > uint64(len(b)) {
+			return nil, false
+		}
+		sc := sec{start: pos, bodyStart: pos + l, count: int(n)}
+		pos += l
+		for j := 0; j < int(n); j++ {
+			sc.elems = append(sc.elems, pos)
+			m, l2 := binary.Uvarint(b[pos:])
+			if l2 <= 0 || pos+l2+int(m) > len(b) {
+				return nil, false
+			}
+			pos += l2 + int(m)
+		}
+		sc.end = pos
+		secs = append(secs, sc)
+	}
+	if pos != len(b) || k < 1 {
+		return nil, false
+	}
+	recount := func(sc sec, n int, body []byte) []byte {
+		var tmp [10]byte
+		l := binary.PutUvarint(tmp[:], uint64(n))
+		return append(append([]byte{}, tmp[:l]...), body...)
+	}
+	keys, vals, links := secs[0], secs[1], secs[2]
+	switch mode {
+	case "droplink":
+		if links.count-k < 1 {
+			return nil, false
+		}
+		out := append([]byte{}, b[:links.start]...)
+		return append(out, recount(links, links.count-k, b[links.bodyStart:links.elems[links.count-k]])...), true
+	case "addlink":
+		if links.count == 0 {
+			return nil, false
+		}
+		out := append([]byte{}, b[:links.start]...)
+		return append(out, recount(links, links.count+k, append(append([]byte{}, b[links.bodyStart:links.end]...), make([]byte, k)...))...), true
+	case "dropvalue":
+		if vals.count-k < 0 || keys.count == 0 {
+			return nil, false
+		}
+		out := append([]byte{}, b[:vals.start]...)
+		out = append(out, recount(vals, vals.count-k, b[vals.bodyStart:vals.elems[vals.count-k]])...)
+		return append(out, b[vals.end:]...), true
+	}
+	return nil, false
+}
